@@ -106,6 +106,9 @@ def finish(res, level="other", explanation="", assumptions=(), trusted_base=(), 
             print("FAIL %s: %s  [%s] at %s" % (pid, v["msg"], v["key"], v["loc"]))
         print("VIOLATION property=%s replay=%s" % (pid, rp))
         return 1
+    stale = os.path.join(ev_dir, "replay", pid + ".json")
+    if os.path.exists(stale):
+        os.remove(stale)          # the replay file describes the violations of the latest run only
     print("OK %s: %d obligations, %d discharged, %d undecided, %d known findings (%.1fs)" % (
         pid, obligations, discharged, len(undec), len(hit), time.time() - res.t0))
     return 0
